@@ -53,6 +53,11 @@ func runC14(c *Ctx) {
 		// PopMove is the exact inverse of PushMove (rule of C08, re-decided here)
 		r.WithAlias("R08-inverse", "R14-clocks", func() { c08Inverse(c, g) })
 	})
+	// every FEN the writer can print for a legal position must be accepted by the reader: the consistency checks
+	// of the decoder test each castling right against its *own* king and rook home squares and demand one king
+	// per side - a check against the wrong square rejects a FEN the engine itself reports (rules of C19)
+	r.Rule("R14-accept", "the decoder's consistency checks accept what the encoder prints for legal positions: each castling right is tested against its own king and rook home squares, and exactly one king per side is required (rules of C19)", 6)
+	c.guard("R14-accept", func() { c19Homes(c, "R14-accept") })
 }
 
 func c14Tables(c *Ctx, in *absint.Interp) {
